@@ -237,3 +237,21 @@ func zzH_C12_osc52() {
 	f.detectOSC52(buf[cut:])
 	verifReach("osc52-scanned")
 }
+
+
+// typed/pasted input scanned for dragged paths: arbitrary bytes through the three platform scanners never crash them
+func zzH_C12_drag() {
+	verifFSRoot() // "/w" exists in the stub file system, so short inputs can name an existing directory
+	buf := zzSymBytes12(verifNondetRange(0, verifBound("N")))
+	switch verifNondetRange(0, 3) {
+	case 0:
+		detectDragFiles(buf)
+	case 1:
+		detectDragFilesOnLinux(buf)
+	case 2:
+		detectDragFilesOnMacOS(buf)
+	case 3:
+		detectDragFilesOnWindows(buf)
+	}
+	verifReach("drag-scanned")
+}
